@@ -6,7 +6,7 @@
 import AITB.Props.C03Refs
 import AITB.Props.C03Anytime
 
-namespace AITB.POMDP
+namespace AITB.POMDP3
 open AITB.MDP
 
 /-- `max_a Q(s,a)` as a state-value vector -/
@@ -68,9 +68,9 @@ theorem qmdpStep_sound (m : POMDP) (hv : Valid m) (V : (Nat → Rat) → Rat) (h
   intro s hs a ha
   exact le_trans (fibStep_sound m hv V hV hsub Q hQ s hs a ha) (qmdp_ge_fib_step m hv Q Q (fun _ _ _ _ => le_refl _) s hs a ha)
 
-end AITB.POMDP
+end AITB.POMDP3
 
-namespace AITB.POMDP
+namespace AITB.POMDP3
 open AITB.MDP
 
 /-- the sawtooth form: for a stored point `(p,u)` and a ratio `c ≥ 0` with `c·p ≤ x` componentwise,
@@ -90,4 +90,4 @@ theorem sawtooth_form_isInterp (m : POMDP) (st : AState) (x p : Nat → Rat) (u 
     exact sumTo_congr (fun s _ => by ring)
   rw [e]; ring
 
-end AITB.POMDP
+end AITB.POMDP3
